@@ -326,6 +326,21 @@ pub fn templates(seed: u64, n_random_each: usize, steps: usize, key_table_1100: 
             push(&format!("unpolled-request-returns-idle-connection-to-full-list-{m}"), c, ops, &mut rng, &mut out);
         }
 
+        // T8c: an un-polled request holds an idle connection that the peer closes; another request waits while it
+        //      dials; then the un-polled request is dropped (C05: the closed connection must not reach the waiter)
+        for close_first in [false, true] {
+            let mut c = cfgs(&mut rng);
+            c.max_idle_per_host = 32;
+            c.idle_timeout_ms = None;
+            let mut ops = exchange(0, false, 0, 0);
+            if close_first {
+                ops.extend([Op::Issue { origin: 0, h2: false }, Op::Close(0), Op::Issue { origin: 0, h2: false }, Op::Poll(2), Op::Cancel(1), Op::Bg, Op::Poll(2)]);
+            } else {
+                ops.extend([Op::Issue { origin: 0, h2: false }, Op::Issue { origin: 0, h2: false }, Op::Poll(2), Op::Close(0), Op::Cancel(1), Op::Bg, Op::Poll(2)]);
+            }
+            push("unpolled-request-holds-a-connection-the-peer-closes", c, ops, &mut rng, &mut out);
+        }
+
         // T9: several origins at once (C06)
         let mut c = cfgs(&mut rng);
         c.origins = vec![origin("http://a.test"), origin("https://a.test"), origin("http://a.test:81"), origin("http://A.test"), origin("http://b.test"), origin("http://a.test:443"), origin("https://a.test:80"), origin("http://a.test:80"), origin("http://a.test@b.test"), origin("http://b.test@a.test"), origin("http://user:pw@a.test:81")];
